@@ -844,6 +844,6 @@ MANIFEST = dict(
         "'all at once or in chunks', 'integer width selection'; the back-off recursion itself is not decided."),
     level_note="Trusted: python ast; NumPy 2 promotion rules. F14 (uint8 parent index wraps; the 7 always-failing "
                "baseline tests) was found by G21 and repaired by a fix: commit.",
-    technique="static analysis: polynomial normal forms of layout constants, path-based definite assignment, argument binding, numeric-type taint",
+    technique="static analysis: polynomial normal forms of layout constants, path-based definite assignment, argument binding, numeric-type taint; typestate of the buffers while loading (no read of old contents before the copy, also through defaulted helper arguments)",
     design_ref="DESIGN.md section 4 C06",
 )
